@@ -129,6 +129,8 @@ fn well_formed(world: &World) -> bool {
 }
 
 pub struct Minimised {
+    /// what the seams saw while the minimised scenario ran (diagnosis)
+    pub probes: String,
     pub scenario: Scenario,
     pub target: usize,
     pub a: Obs,
@@ -189,17 +191,41 @@ pub fn minimise(full: &Scenario, a: &Obs, b: &Obs, budget: usize) -> Option<Mini
             ],
         };
         if let Some(v) = sh.fails(&core) {
-            sh.log.push(format!("stage2: entropy alone reproduces (entropy {e} vs 0); history dropped"));
             cur = core;
             verdict = v;
-            // try small entropy values so the replay is easy to read
-            for small in 1..=16u64 {
-                let mut c = cur.clone();
-                c.worlds[1].ops[0] = Op::Spawn { w: 0, entropy: small };
-                if let Some(v) = sh.fails(&c) {
-                    cur = c;
+            // is it really the entropy? two fresh processes with *identical* seams must agree
+            let mut same = cur.clone();
+            same.worlds[1].ops[0] = Op::Spawn { w: 0, entropy: 0 };
+            if let Some(v) = sh.fails(&same) {
+                sh.log.push("stage2: two fresh single-worker processes with identical entropy, clock, pid, environment and layout disagree: the cause is state outside the processes (the scenario's disk) or an input the simulator does not own".into());
+                cur = same;
+                verdict = v;
+                // does the second process only differ because the first one ran before it?
+                let mut one = cur.clone();
+                one.worlds.remove(0);
+                one.worlds[0].ops = vec![
+                    Op::Spawn { w: 0, entropy: 0 },
+                    Op::Expand { w: 0, input: sh.target },
+                    Op::Kill { w: 0 },
+                    Op::Spawn { w: 1, entropy: 0 },
+                    Op::Expand { w: 1, input: sh.target },
+                ];
+                if let Some(v) = sh.fails(&one) {
+                    sh.log.push("stage2: also reproduces inside one process (first vs second expansion on fresh workers)".into());
+                    cur = one;
                     verdict = v;
-                    break;
+                }
+            } else {
+                sh.log.push(format!("stage2: entropy alone reproduces (entropy {e} vs 0); history dropped"));
+                // try small entropy values so the replay is easy to read
+                for small in 1..=16u64 {
+                    let mut c = cur.clone();
+                    c.worlds[1].ops[0] = Op::Spawn { w: 0, entropy: small };
+                    if let Some(v) = sh.fails(&c) {
+                        cur = c;
+                        verdict = v;
+                        break;
+                    }
                 }
             }
         } else {
@@ -230,13 +256,13 @@ pub fn minimise(full: &Scenario, a: &Obs, b: &Obs, budget: usize) -> Option<Mini
                 }
                 if c != cur {
                     if let Some(v) = sh.fails(&c) {
-                        sh.log.push("stage3: reproduces with identical entropy everywhere: pure history effect".into());
+                        sh.log.push("stage3: reproduces with identical entropy everywhere: not the hasher keys (history, environment or another seam)".into());
                         cur = c;
                         verdict = v;
                     }
                 }
             }
-            // env
+            // env: all at once, else one variable at a time
             for wi in 0..cur.worlds.len() {
                 if !cur.worlds[wi].env.is_empty() {
                     let mut c = cur.clone();
@@ -244,7 +270,21 @@ pub fn minimise(full: &Scenario, a: &Obs, b: &Obs, budget: usize) -> Option<Mini
                     if let Some(v) = sh.fails(&c) {
                         cur = c;
                         verdict = v;
+                        continue;
                     }
+                    let mut k = 0;
+                    while k < cur.worlds[wi].env.len() {
+                        let mut c = cur.clone();
+                        c.worlds[wi].env.remove(k);
+                        if let Some(v) = sh.fails(&c) {
+                            cur = c;
+                            verdict = v;
+                        } else {
+                            k += 1;
+                        }
+                    }
+                    let names: Vec<&str> = cur.worlds[wi].env.iter().map(|(k, _)| k.as_str()).collect();
+                    sh.log.push(format!("stage3: world {} needs environment {:?}", cur.worlds[wi].name, names));
                 }
             }
             // perturbation kinds, one kind at a time
@@ -403,7 +443,32 @@ pub fn minimise(full: &Scenario, a: &Obs, b: &Obs, budget: usize) -> Option<Mini
     if confirmed == 0 {
         return None;
     }
-    Some(Minimised { scenario: fin, target, a: verdict.a, b: verdict.b, evals: sh.evals, log: sh.log, confirmed_replays: confirmed })
+    let probes = match execute(&fin) {
+        Ok(ex) => {
+            let mut t = (0u64, 0u64, 0u64, 0u64, 0u64, 0u64);
+            let mut names: Vec<String> = vec![];
+            for s in &ex.stats {
+                t.0 += s.clock_reads_worker;
+                t.1 += s.pid_reads_worker;
+                t.2 += s.env_reads_worker;
+                t.3 += s.cwd_reads_worker;
+                t.4 += s.fs_calls_worker;
+                t.5 += s.ncpu_reads_worker;
+                for n in &s.env_names {
+                    if !names.contains(n) {
+                        names.push(n.clone());
+                    }
+                }
+            }
+            format!(
+                "during the minimised scenario workers made: clock reads {}, pid reads {}, env lookups {} {:?}, cwd reads {}, file opens {}, cpu-count reads {}",
+                t.0, t.1, t.2, names, t.3, t.4, t.5
+            )
+        },
+        Err(_) => String::new(),
+    };
+    Some(Minimised {
+        probes, scenario: fin, target, a: verdict.a, b: verdict.b, evals: sh.evals, log: sh.log, confirmed_replays: confirmed })
 }
 
 // ------------------------------------------------------------------ input shrinking
